@@ -46,10 +46,65 @@ func (c *Ctx) c16Lexer(rng *rand.Rand) {
 	c.Sample(map[string]any{"kind": "lexer history", "grammar": b.Cases[1].Text, "history": fmt.Sprintf("NewLexer(%q); Scan*; Reset; Scan*", inputs[1][len(inputs[1])-1])})
 }
 
+// c16Parser: Parse on a used parser object behaves like Parse on a fresh one. The driver
+// model starts every Parse from the fresh initial configuration (Begin), so validating the
+// trace of the k-th call of a history against the model IS the property; histories mix
+// sentences, early and late failures, recovering inputs and failing actions.
+func (c *Ctx) c16Parser(rng *rand.Rand) {
+	var gs []*SynGrammar
+	for _, g := range append(curatedSyn(), curatedErrSyn()...) {
+		for i := range g.Prods {
+			if i%4 != 3 {
+				g.Prods[i].Action = "log"
+			}
+		}
+		gs = append(gs, g)
+	}
+	for i := 0; i < c.pick(60, 400); i++ {
+		o := c03Opts
+		if i%2 == 0 {
+			o = c07Opts
+		}
+		gs = append(gs, genSynGrammar(rng, o))
+	}
+	b := c.buildSynBatch("c16syn", gs, [][]string{nil})
+	var cases []*SynCase
+	for _, cs := range b.built() {
+		if cs.Reported != -1 || cs.pairingProblem() != "" {
+			continue
+		}
+		cases = append(cases, cs)
+	}
+	c.Add("evaluations", int64(len(cases)))
+	var hs []*synHistory
+	maxCalls := c.pick(3, 5)
+	for i, cs := range cases {
+		pool := synInputs(rng, cs.G, 3, 12, c.pick(6, 14), true)
+		for k := 0; k < c.pick(8, 30); k++ {
+			n := 2 + rng.Intn(maxCalls-1)
+			h := &synHistory{Case: cs, CaseIx: i}
+			for j := 0; j < n; j++ {
+				in := synInput{Toks: pool[rng.Intn(len(pool))]}
+				if rng.Intn(5) == 0 {
+					in.FailAt = 1 + rng.Intn(3)
+				}
+				h.Inputs = append(h.Inputs, in)
+			}
+			hs = append(hs, h)
+			c.Distinct("syn" + cs.Sub + fmt.Sprint(h.Inputs))
+		}
+	}
+	c.synTraceRound(b, cases, hs, "C16 (parser reuse)", []bool{false, true})
+	if len(hs) > 0 {
+		c.Sample(map[string]any{"kind": "parser history", "grammar": hs[len(hs)-1].Case.Text, "history": describeSynEvents(hs[len(hs)-1])})
+	}
+}
+
 func checkC16(c *Ctx) {
 	c.Level = "model_checking"
-	c.Set("rule", "lexers: TLC explores Reset at every call boundary of the Scan-loop model for all texts up to the bound (ResetFresh, position invariants); real lexers are scanned to the end, Reset and scanned again, each trace validated by TLC against the model with the real automaton and compared with the reference tokenizer. distinct_nontrivial counts distinct (grammar, input history) cases")
+	c.Set("rule", "parsers: histories of 2-5 Parse calls (sentences, early/late failures, recovering inputs, failing actions) on ONE real parser object; the trace of every call is validated by TLC against the driver model, which starts each Parse from the fresh configuration, over the real and the canonical tables (result, error value, expected list, action calls). lexers: TLC explores Reset at every call boundary of the Scan-loop model for all texts up to the bound (ResetFresh, position invariants); real lexers are scanned to the end, Reset and scanned again, each trace validated by TLC against the model with the real automaton and compared with the reference tokenizer. distinct_nontrivial counts distinct (grammar, input history) cases")
 	rng := rand.New(rand.NewSource(c.Seed))
 	c.runMCLexScan([]string{"PosExact", "CursorExact", "Tiling"}, []string{"ResetFresh", "EOFSticky"})
 	c.c16Lexer(rng)
+	c.c16Parser(rng)
 }
